@@ -17,6 +17,17 @@ func exceptionRoot(f *ssa.Function) *ssa.Function {
 	return f
 }
 
+// libFuncsIn: the source-level library functions of a reach set.
+func libFuncsIn(c *Ctx, r *Reach) []*ssa.Function {
+	var out []*ssa.Function
+	for _, f := range srcFuncsIn(r) {
+		if c.Lib[fnPkg(f)] {
+			out = append(out, f)
+		}
+	}
+	return out
+}
+
 // srcFuncsIn returns the source-level functions (no synthetic wrappers) of a reach set.
 func srcFuncsIn(r *Reach) []*ssa.Function {
 	var out []*ssa.Function
@@ -127,12 +138,14 @@ func init() {
 	})
 	register(&propDef{
 		ID:          "C11",
-		Explanation: "Thin but genuine necessary conditions, decided by table comparison: jparse.jsonEscapes equals RFC 8259 section 7's two-character escape table exactly (no missing, changed or extra letter); true/false/null are lexed as boolean/boolean/null and parseBoolean maps each word to its own value; evalArray has an *ArrayNode case that appends a nested array literal as a unit without iterating over it. NOT decided: \\u decoding, surrogate pairing, number scanning and range errors.",
+		Explanation: "Thin but genuine necessary conditions, decided by table comparison: jparse.jsonEscapes equals RFC 8259 section 7's two-character escape table exactly (no missing, changed or extra letter); true/false/null are lexed as boolean/boolean/null and parseBoolean maps each word to its own value; evalArray has an *ArrayNode case that appends a nested array literal as a unit without iterating over it; (LIT) literal values flow unchanged from token to result: the number nud stores the first result of strconv.ParseFloat(token text, 64) — the nearest double — only after testing its error, the string nud stores unescape(token text) only after testing its ok result, NegationNode.optimize folds a negated literal into the arithmetic negation of the operand's value (so -0 keeps its sign), and the functions eval dispatches number, string and boolean nodes to return reflect.ValueOf(node.Value) on every path (no cache or table in between). NOT decided: \\u decoding, surrogate pairing, number scanning.",
 		Rule:        commonRule,
 		Fixtures:    []string{"tab"},
 		Run: func(c *Ctx, r *Result) {
 			runJSONLiterals(c, r, "TAB")
 			r.RequireMin("TAB JSON-literal obligations", len(r.Obls), 14)
+			k := runLIT(c, r, "LIT")
+			r.RequireMin("LIT literal-flow obligations", k, 6)
 		},
 	})
 	register(&propDef{
@@ -287,9 +300,9 @@ func runPanics(c *Ctx, r *Result, rule string, reach *Reach, tabProved map[strin
 func init() {
 	register(&propDef{
 		ID:          "C09",
-		Explanation: "Decides the crash/hang classes that are visible in the shape of the code, over everything reachable from Eval in the module call graph: (NF) every kind-specific reflect accessor gets a provably resolved receiver (138 sites, interprocedural); (TAB) eval's type switch covers every node type the parser can emit and every operator-enum switch is exhaustive, so the 'unexpected node'/'unrecognised operator' panics are unreachable; (PANIC) every explicit panic under Eval is one of those or a listed exception; (LOOP) every loop under Eval has a recognised variant (range, counted towards an invariant bound, shrinking-suffix consumer, positive multiplicative scaling, or a reviewed entry) and every recursive SCC a reviewed structural descent; (GUARD) integer / and % have a dominating non-zero test, strconv.FormatInt bases are confined to [2,36], strings.Repeat counts are non-negative; (HASH) no interface-keyed map is indexed with a dynamically typed value; (IDX) every reflect.Value.Index gets an index proved within 0..Len-1; (BND) every native index and slice expression under Eval is in range: either the Go compiler's own prove pass removes its bounds check (asked with -d=ssa/check_bce on the current tree), or a difference-constraint proof over dominating comparisons, definitions and library post-conditions gives 0 <= low <= high <= len, or the unproved part is covered by a reviewed one-site invariant. NOT decided: IsValid/CanInterface guards beyond these rules, type-assertion safety, nil interfaces used as values, reflect.Set on zero Values, stack depth, lt's own panic.",
+		Explanation: "Decides the crash/hang classes that are visible in the shape of the code, over everything reachable from Eval in the module call graph: (NF) every kind-specific reflect accessor gets a provably resolved receiver (138 sites, interprocedural); (TAB) eval's type switch covers every node type the parser can emit and every operator-enum switch is exhaustive, so the 'unexpected node'/'unrecognised operator' panics are unreachable; (PANIC) every explicit panic under Eval is one of those or a listed exception; (LOOP) every loop under Eval has a recognised variant (range, counted towards an invariant bound, shrinking-suffix consumer, positive multiplicative scaling, or a reviewed entry) and every recursive SCC a reviewed structural descent; (GUARD) integer / and % have a dominating non-zero test, strconv.FormatInt bases are confined to [2,36], strings.Repeat counts are non-negative; (HASH) no interface-keyed map is indexed with a dynamically typed value; (IDX) every reflect.Value.Index gets an index proved within 0..Len-1; (BND) every native index and slice expression under Eval is in range: either the Go compiler's own prove pass removes its bounds check (asked with -d=ssa/check_bce on the current tree), or a difference-constraint proof over dominating comparisons, definitions and library post-conditions gives 0 <= low <= high <= len, or the unproved part is covered by a reviewed one-site invariant. (TA) every single-result type assertion is dominated by a reflect type test of the same value against a type variable whose initialiser denotes the asserted type, or asserts the success result of a function that only returns that type, or is a reviewed exception. NOT decided: IsValid/CanInterface guards beyond these rules, nil interfaces used as values, reflect.Set on zero Values, stack depth, lt's own panic.",
 		Rule:        commonRule,
-		Fixtures:    []string{"nf", "guard", "hash", "tab", "loop", "bnd"},
+		Fixtures:    []string{"nf", "guard", "hash", "tab", "loop", "bnd", "ta"},
 		Run: func(c *Ctx, r *Result) {
 			n := runNF(c, c.G, r, "NF", srcFuncsIn(c.REval), c.REval)
 			r.RequireMin("NF accessor sites under Eval", n, 130)
@@ -315,6 +328,8 @@ func init() {
 			h := runHASH(c, r, "HASH", srcFuncsIn(c.REval), c.REval)
 			r.Count("HASH interface-keyed map accesses under Eval", h)
 			runBNDFor(c, r, "BND", c.REval, "Eval", 250, 70)
+			ta := runTA(c, r, "TA", libFuncsIn(c, c.REval), c.REval)
+			r.RequireMin("TA single-result type assertions under Eval", ta, 10)
 			r.Assume("user-defined JSONata functions are not unboundedly recursive (excluded by the property)")
 			r.Assume("Go values handed to Eval are acyclic (JSON-decoded data); jtypes.Resolve follows pointer chains")
 			r.Assume("runes in a DecimalFormat are valid (utf8.RuneLen >= 1), as updateDecimalFormat enforces for user-supplied options")
@@ -588,7 +603,7 @@ func init() {
 		ID:          "C08",
 		Explanation: "Decides the panic/hang classes of Compile that are visible in the shape of the code, for every input string: (ERR) every error value that is returned, thrown to Parse's recover, or stored in jparse is nil, a *jparse.Error, lexer.err, or the result of another jparse function (inductively the same), every Error literal carries a declared non-zero ErrType (all of which have messages, TAB), Parse's deferred closure turns exactly the *Error panics into (nil, err), Compile hands Parse's error on with a nil expression and MustCompile panics exactly on err != nil; (LEX) abstract interpretation of the lexer over a finite domain (cursor position, width typestate, one known first rune per cell of the partition induced by the lexer's own constants and tables, unknown runes afterwards): no rewind by a stale width (the double backup behind Compile(\"!é\") and Compile(\"[1.䑁]\")), and every token returned by next other than EOF/error has consumed a rune, for every first rune (the empty-token hang behind function($x)<!>{$x}); (LOOP/REC) every loop under Compile has a recognised variant — parser loops consume a token or panic per cycle, lexer loops read a rune and leave at eof, accept predicates reject eof — and every recursive SCC a reviewed descent; (TAB/PANIC) each led is registered for exactly the tokens its switch handles, so every explicit 'unexpected ...' panic under Compile is unreachable. (BND) every native index and slice expression under Compile is in range: its bounds check is removed by the Go compiler's prove pass, or a difference-constraint proof gives 0 <= low <= high <= len, or the unproved part is covered by a reviewed one-site invariant (the lexer's cursor invariant being the one LEX maintains) — the class of Compile(\"function($x)<(>{$x}\"), which sliced with -1. NOT decided, and said so: stack depth on deeply nested input.",
 		Rule:        commonRule,
-		Fixtures:    []string{"loop", "tab", "bnd"},
+		Fixtures:    []string{"loop", "tab", "bnd", "ta"},
 		Run: func(c *Ctx, r *Result) {
 			runERR(c, r, "ERR")
 			// Compile's outcome is a function of its input string: nothing under Compile writes
@@ -611,6 +626,8 @@ func init() {
 			p := runPanics(c, r, "PANIC", c.RCompile, tabProved)
 			r.RequireMin("PANIC string panics under Compile", p, 4)
 			runBNDFor(c, r, "BND", c.RCompile, "Compile", 55, 25)
+			ta := runTA(c, r, "TA", libFuncsIn(c, c.RCompile), c.RCompile)
+			r.RequireMin("TA single-result type assertions under Compile", ta, 3)
 			r.Assume("the input string is finite; regexp.Compile, strconv.ParseFloat and utf8/utf16 functions terminate and do not panic")
 		},
 	})
